@@ -117,7 +117,7 @@ func (m *fieldMachine) pred(op string, s []int) {
 			e["ret"] = out[0].Bool()
 		case reflect.Int:
 			e["ret"] = int(out[0].Int())
-		case reflect.Uint64:
+		case reflect.Uint64, reflect.Uint32, reflect.Uint:
 			if op == "Uint64" {
 				e["retn"] = digits(new(big.Int).SetUint64(out[0].Uint()))
 			} else if out[0].Uint() != 0 { // NotEqual: only zero / non-zero is specified
@@ -276,7 +276,7 @@ func (m *fieldMachine) battery(a, b *big.Int, full bool) {
 	m.step("Set", 3, []int{1}, nil)
 	m.step("Butterfly", 2, []int{3}, nil)
 	if m.f.WBits == 32 {
-		m.step("Mul2ExpNegN", 2, []int{0}, m.rng.Intn(40))
+		m.step("Mul2ExpNegN", 2, []int{0}, m.rng.Intn(33))
 	}
 	if full {
 		for _, k := range m.f.exponents(m.rng) {
